@@ -86,6 +86,7 @@ class Registry:
         self.files = []
         self.lemmas = []
         self.class_consts = {}        # attr name -> [(pycls, value)]
+        self.property_get = {}        # attr name -> [(pycls, SpecFn)]
         self.instance_classes = []
 
     # -- loading ------------------------------------------------------------------------------
@@ -118,6 +119,11 @@ class Registry:
                 ent = (pycls, getattr(pycls, n))
                 if ent not in self.class_consts.setdefault(n, []):
                     self.class_consts[n].append(ent)
+        for pycls, props in glob.get('PROPERTY_GET', {}).items():
+            for n, specname in props.items():
+                ent = (pycls, self.spec_names[specname])
+                if ent not in self.property_get.setdefault(n, []):
+                    self.property_get[n].append(ent)
         for pycls in glob.get('INSTANCE_CLASSES', []):
             if pycls not in self.instance_classes:
                 self.instance_classes.append(pycls)
